@@ -23,7 +23,8 @@ def run_solve(prob, n_steps, fail_at=None, pre=(), broyden=False):
         exec(p, dict(opt=opt, d=d))
     act.fail_at = None if fail_at is None else act.calls + fail_at
     try:
-        opt.solve(broyden=broyden)
+        with deadline(120):
+            opt.solve(broyden=broyden)
     except Exception as ex:
         kn = knobs_of(d, prob)
         va = "".join("y" if v.active else "n" for v in opt.vary)
@@ -49,7 +50,7 @@ def main():
     N = 1200 if quick else 8000
     rac.section("solve", "generated problems (linear / quadratic / sin / atan; 1-3 knobs, 1-4 targets; consistent, inconsistent, "
                 "rank-deficient; limits, weights, max_step, inactive knobs/targets) x n_steps_max in {0,1,3,20} x {plain, Broyden, "
-                "user action raising at its 1st..6th call, a knob enabled after row 0}; normal return => independently re-evaluated "
+                "user action raising at its 1st..6th call, a knob enabled after row 0, a knob moved by a step and then disabled before a failing solve}; normal return => independently re-evaluated "
                 "active targets within tolerance; exception => knobs and flags of log row 0; non-trivial = at least one "
                 "solver step was attempted", f"{N} problems (seeded)", exhaustive=False)
     counts = {}
@@ -58,11 +59,15 @@ def main():
             break
         prob = G.rnd_problem(rac.rng, inactive=rac.rng.random() < 0.4)
         n_steps = rac.rng.choice([0, 1, 3, 20, 20])
-        mode = rac.rng.choice(["plain", "plain", "broyden", "fail", "enable"])
-        fail_at = rac.rng.randint(1, 6) if mode == "fail" else None
+        mode = rac.rng.choice(["plain", "plain", "broyden", "fail", "enable", "moved-then-disabled"])
+        fail_at = rac.rng.randint(1, 6) if mode in ("fail", "moved-then-disabled") else None
         pre = ()
         if mode == "enable":
             pre = ("opt.enable(vary=True); opt.enable(target=True)",)
+        if mode == "moved-then-disabled":
+            # a knob is moved by one step, then disabled; the solve() that follows fails: every knob -- also the one that is now disabled -- and
+            # every flag goes back to log row 0
+            pre = ("opt.step(1)", f"opt.disable(vary=[{rac.rng.randrange(len(prob['k0']))}])")
         try:
             out, det = run_solve(prob, n_steps, fail_at=fail_at, pre=pre, broyden=mode == "broyden")
         except Exception as ex:      # noqa  (problem cannot even be built: e.g. start outside limits)
@@ -76,7 +81,7 @@ def main():
             rac.fail(f"solve {n} {out} " + json.dumps(prob)[:80], f"C09 solve() on a {prob['fam']} problem ({mode}, n_steps_max={n_steps}): {out}: {det}", scr,
                      "Optimize.solve")
     rac.section("crafted", "hand-made corner cases: knob blocked by its limit while the last finite-difference point is within "
-                "tolerance; knob inactive at row 0 then enabled and moved by a failing solve; failing first evaluation", "6 cases")
+                "tolerance; knob inactive at row 0 then enabled and moved by a failing solve; failing first evaluation", "9 cases")
     crafted = [
         ("limit-blocked fd point within tol", dict(fam="linear", A=[[1.0]], c=[0.0], k0=[1.0], val=[1.0000015], tol=[1e-6], tw=[None],
                                                    lim=[[0.0, 1.0]], w=[None], ms=[None], step=1e-6, kact=[True], tact=[True]), 20, None, ()),
@@ -92,6 +97,13 @@ def main():
                                                    lim=[None], w=[None], ms=[None], step=1e-7, kact=[True], tact=[True, False]), 20, None, ()),
         ("zero steps", dict(fam="linear", A=[[1.0]], c=[0.0], k0=[0.0], val=[1.0], tol=[1e-6], tw=[None], lim=[None], w=[None], ms=[None],
                             step=1e-7, kact=[True], tact=[True]), 0, None, ()),
+        # an active target that is NaN at the starting point while every other active target is already within tolerance there: not matched
+        ("NaN target at the start, the others matched", dict(fam="sqrt", A=[[1.0], [1.0]], c=[1.0, -5.0], k0=[0.0], val=[1.0, 2.0], tol=[1e-6, 1e-6],
+                                                           tw=[None, None], lim=[None], w=[None], ms=[None], step=1e-7, kact=[True], tact=[True, True]), 20, None, ()),
+        ("NaN target at the start, alone", dict(fam="sqrt", A=[[1.0]], c=[-5.0], k0=[0.0], val=[2.0], tol=[1e-6], tw=[None], lim=[None], w=[None], ms=[None],
+                                                step=1e-7, kact=[True], tact=[True]), 5, None, ()),
+        ("NaN target with limits", dict(fam="sqrt", A=[[1.0, 0.0], [0.0, 1.0]], c=[4.0, -1.0], k0=[0.0, 0.5], val=[2.0, 1.0], tol=[1e-6, 1e-6], tw=[None, None],
+                                        lim=[[-1.0, 1.0], [-1.0, 1.0]], w=[None, None], ms=[None, None], step=1e-7, kact=[True, True], tact=[True, True]), 20, None, ()),
     ]
     for name, prob, n_steps, fail_at, pre in crafted:
         try:
